@@ -18,7 +18,17 @@ Python is glue: it writes abstract syntax as text, runs souffle and compares tex
 import json, os, re, random, hashlib, shutil, concurrent.futures as cf
 from .. import build, tlc, known, gen, render, evalcore, syntaxgen as sg, souffle as sf
 from ..common import SPEC, workdir, seed, Result, NCPU, canon
-from ..common import run as sh
+from ..common import run as _run
+import time
+
+def sh(cmd, **kw):
+    """common.run, retried when the shared souffle binary is being relinked by a concurrent ensure_souffle()"""
+    for attempt in range(30):
+        try:
+            return _run(cmd, **kw)
+        except OSError:
+            time.sleep(2)
+    return _run(cmd, **kw)
 from ..evidence import finish
 
 PID = "C15"
